@@ -60,8 +60,8 @@ pub const BASE_TYPES: &[&str] = &[
 const TEXTS: &[&str] = &["x", "speed: ", "a&b", "<tag>", "é€", " lead", "q\"uote", "1 2", "it's", "tab\there", "𝄞"];
 // pools chosen so that different (context, application) pairs have equal concatenations
 // ("AB"+"C" == "A"+"BC") and ids differ only in trailing blanks
-const APPS: &[&str] = &["APP", "DR", "A", "éé", "BC", "C", "A "];
-const CTXS: &[&str] = &["CTX1", "C2", "TIME", "A", "AB", "AB "];
+const APPS: &[&str] = &["APP", "DR", "A", "éé", "BC", "C", "A ", "DOOR", "DOOR_L", "DOOR_R"];
+const CTXS: &[&str] = &["CTX1", "C2", "TIME", "A", "AB", "AB ", "BODY", "BODY1", "BODY2"];
 
 fn ti(kind: TypeInfoKind, coding: StringCoding) -> TypeInfo {
     TypeInfo {
